@@ -116,6 +116,7 @@ func c23CPUCheck(l *explore.Local, e *cpuEnv, c c23CPU) *explore.Fail {
 		for _, a := range []uint8{0x00, 0x5a, 0xff} {
 			e.m.Map.Write(0xff0f, 0)
 			e.m.Map.Write(0xffff, 0)
+			e.m.Map.Write(0xff00, 0x00) // JOYP, next door to SB, reads CF: a load that goes astray does not read FF there
 			e.placeCode(0xc000, code)
 			regs := cpu.VRegs{A: a, F: fl, B: uint8(c.Ptr >> 8), C: uint8(c.Ptr), D: uint8(c.Ptr >> 8), E: uint8(c.Ptr), H: uint8(c.Ptr >> 8), L: uint8(c.Ptr), SP: c.Ptr + 2, PC: 0xc000}
 			if c.Op == 0xc1 || c.Op == 0xd1 || c.Op == 0xe1 || c.Op == 0xf1 || c.Op == 0xc9 || c.Op == 0xd9 || c.Op&0xe7 == 0xc0 {
@@ -133,6 +134,18 @@ func c23CPUCheck(l *explore.Local, e *cpuEnv, c c23CPU) *explore.Fail {
 			for _, w := range e.log {
 				if w.Write && w.Addr == 0xff01 {
 					want = append(want, w.Val)
+				}
+			}
+			// what the instruction loaded: with the pointers at FF01 / FF02 every data read is a read of SB / SC (FF)
+			if c.Ptr == 0xff01 || c.Ptr == 0xff02 {
+				reads := false
+				for _, a := range o.info.Accesses {
+					if !a.Write && (a.Addr == 0xff01 || a.Addr == 0xff02) {
+						reads = true
+					}
+				}
+				if f := compareRegs(o, regs); f != nil && reads {
+					return explore.Failf("a CPU load from SB / SC does not give FF", "op %s with pointers at %04x: %s", opName(o.info), c.Ptr, f.Msg)
 				}
 			}
 			got := e.m.Serial.Bytes()[before:]
@@ -263,7 +276,7 @@ func c23CfgCheck(c *Ctx) func(l *explore.Local, _ struct{}, q c23Cfg) *explore.F
 func init() {
 	register("C23", "model_checking", func(c *Ctx) {
 		if c.R != nil {
-			c.R.Rule = "(a) every sequence of up to the length bound over 17 Mapper writes (SB with 4 values, SC in {00,81,80,01,FF}, DMA start, LCD off, sound off, JOYP, DIV, IF, WRAM, FF03), with a recording writer and with no writer, with and without machine cycles in between: the transcript must equal the SB writes in order after every write, SB/SC read FF; (a2) every single value and every ordered pair of values written to SB; (b) every opcode executed with every pointer register, SP, n and nn aimed at FF00, FF01, FF02: the bytes delivered must equal the reference CPU's writes to FF01 (read-modify-write instructions write once, PUSH / LD (nn),SP hit FF01 with one of their two bytes); (d) the real constructor gameboy.New with all 32 combinations of {serial writer configured, DebugCPU, DebugLCD, display, speakers}: a guest writing six bytes to SB delivers exactly those to the writer, or runs on unharmed when none is configured; (c) blargg ROMs: transcript equals the SB stores decoded by a per-instruction monitor"
+			c.R.Rule = "(a) every sequence of up to the length bound over 17 Mapper writes (SB with 4 values, SC in {00,81,80,01,FF}, DMA start, LCD off, sound off, JOYP, DIV, IF, WRAM, FF03), with a recording writer and with no writer, with and without machine cycles in between: the transcript must equal the SB writes in order after every write, SB/SC read FF; (a2) every single value and every ordered pair of values written to SB; (b) every opcode executed with every pointer register, SP, n and nn aimed at FF00, FF01, FF02: the bytes delivered must equal the reference CPU's writes to FF01 (read-modify-write instructions write once, PUSH / LD (nn),SP hit FF01 with one of their two bytes), and every instruction that reads through a pointer at FF01 / FF02 must load FF; (d) the real constructor gameboy.New with all 32 combinations of {serial writer configured, DebugCPU, DebugLCD, display, speakers}: a guest writing six bytes to SB delivers exactly those to the writer, or runs on unharmed when none is configured; (c) blargg ROMs: transcript equals the SB stores decoded by a per-instruction monitor"
 			c.R.Assumptions = []string{"delivery through gameboy.New's Config.SerialWriter wiring is compared in C26"}
 		}
 		n := 4
